@@ -329,6 +329,13 @@ class TradingEnv(gymnasium.Env):
             # The account went broke during this step: the episode ends here.
             reward = float('nan')
             self._done = True
+        if not self._done:
+            # Rewards which do not value the account do not raise: the episode
+            # ends when the account is broke, whatever the reward looks at.
+            try:
+                self.broker.net_liquidation_value()
+            except EndOfEpisodeError:
+                self._done = True
 
         # Tear down events to notify observers.
         self._visits[self.now()] += 1
